@@ -333,8 +333,10 @@ pub fn case_strategy(pool: Arc<UnitPool>) -> impl Strategy<Value = Case> {
         r_strategy(),
         proptest::option::weighted(0.17, (0usize..ncl, any::<prop::sample::Index>(), any::<bool>())),
         proptest::sample::select(vec!["; ", ", ", ";", " ; "]),
+        // spellings: a prefix in front and / or a plural `s` behind a list member (`ms;us`, `feet`-like forms)
+        proptest::collection::vec((proptest::option::weighted(0.25, any::<prop::sample::Index>()), proptest::bool::weighted(0.15)), 6),
     )
-        .prop_map(move |(c, ms, u0, order, r, stranger, sep)| {
+        .prop_map(move |(c, ms, u0, order, r, stranger, sep, decos)| {
             let cl = &c1[c];
             let mut idx: Vec<usize> = ms.iter().map(|m| cl[m.index(cl.len())]).collect();
             match order {
@@ -360,7 +362,14 @@ pub fn case_strategy(pool: Arc<UnitPool>) -> impl Strategy<Value = Case> {
                 }),
                 _ => {}
             }
-            let mut names: Vec<String> = idx.iter().map(|i| p1.units[*i].name.clone()).collect();
+            let mut names: Vec<String> = idx
+                .iter()
+                .enumerate()
+                .map(|(k, i)| {
+                    let (pre, plural) = &decos[k % decos.len()];
+                    crate::props::c03::decorated(&p1, *i, pre.as_ref().map(|x| x.index(p1.prefixes.len())), *plural)
+                })
+                .collect();
             let mut u0n = p1.units[cl[u0.index(cl.len())]].name.clone();
             if let Some((sc, sm, in_value)) = stranger {
                 let scl = &c1[sc];
@@ -392,6 +401,92 @@ pub fn case_strategy(pool: Arc<UnitPool>) -> impl Strategy<Value = Case> {
             separator: String::new(),
         });
     prop_oneof![6 => lists, 1 => durations]
+}
+
+/// a time value that is a float (a root, a transcendental function): the breakdown must obey
+/// the same laws up to float rounding
+#[derive(Clone, Debug, Serialize, Deserialize)]
+pub struct FloatDuration {
+    pub k: u32,
+    pub form: u8,
+    pub neg: bool,
+}
+
+impl FloatDuration {
+    pub fn text(&self) -> String {
+        let s = if self.neg { "-" } else { "" };
+        match self.form % 5 {
+            0 => format!("{}sqrt({} s^2)", s, self.k),
+            1 => format!("{}({} s^2)^(1|2)", s, self.k),
+            2 => format!("{}{} exp(0) s", s, self.k),
+            3 => format!("{}hypot({} s, 0 s)", s, self.k),
+            _ => format!("{}{} sqrt(2) hour", s, self.k),
+        }
+    }
+    pub fn value(&self) -> f64 {
+        let sg = if self.neg { -1.0 } else { 1.0 };
+        sg * match self.form % 5 {
+            0 | 1 => (self.k as f64).sqrt(),
+            2 | 3 => self.k as f64,
+            _ => self.k as f64 * 2f64.sqrt() * 3600.0,
+        }
+    }
+}
+
+pub fn check_float_duration(env: &Env, c: &FloatDuration, st: &mut Stats) -> CaseResult {
+    let text = c.text();
+    let v = c.value();
+    st.eval();
+    st.class("float_duration_breakdown");
+    let names = ["year", "week", "day", "hour", "minute", "second"];
+    let mut units = vec![];
+    for n in names {
+        match env.ctx.lookup(n) {
+            Some(u) => units.push(u.value.to_f64()),
+            None => return Ok(()),
+        }
+    }
+    match rinkx::eval_line(&env.ctx, &text) {
+        Out::Panic(p) => fail(env, st, &panic_signature(&p), &text, format!("panicked: {}", p)),
+        Out::Reply(QueryReply::Duration(d)) => {
+            let ps = [&d.years, &d.weeks, &d.days, &d.hours, &d.minutes, &d.seconds];
+            let mut parts = vec![];
+            for p in ps.iter() {
+                match p.raw_value.as_ref() {
+                    Some(r) => parts.push(r.value.to_f64()),
+                    None => return fail(env, st, "duration-part-missing", &text, "a part has no raw value".into()),
+                }
+            }
+            st.nontrivial(&text);
+            st.nt_sample(|| json!(format!("{} => {}", text, QueryReply::Duration(d.clone()))));
+            let tol = 1e-6 * v.abs().max(1.0);
+            let mut sum = 0.0;
+            for i in 0..6 {
+                if i < 5 && parts[i].fract() != 0.0 {
+                    return fail(env, st, "float-duration-non-integer-inner-part", &text, format!("the {} part is {} ({})", names[i], parts[i], QueryReply::Duration(d.clone())));
+                }
+                if parts[i] != 0.0 && (parts[i] < 0.0) != (v < 0.0) {
+                    return fail(env, st, "float-duration-part-sign", &text, format!("the {} part {} does not share the value's sign", names[i], parts[i]));
+                }
+                sum += parts[i] * units[i];
+            }
+            if (sum - v).abs() > tol {
+                return fail(
+                    env,
+                    st,
+                    "float-duration-sum-wrong",
+                    &text,
+                    format!("the parts add up to {} s, the value is {} s ({})", sum, v, QueryReply::Duration(d.clone())),
+                );
+            }
+            Ok(())
+        }
+        Out::Reply(QueryReply::Number(_)) | Out::Error(_) => {
+            st.excluded("not a duration reply");
+            Ok(())
+        }
+        other => fail(env, st, "float-duration-reply-missing", &text, other.describe()),
+    }
 }
 
 pub fn mk_env(known: BTreeSet<String>) -> Env {
@@ -431,6 +526,17 @@ pub fn run(cx: &Cx) -> Report {
         |c| json!({"case": c, "text": c.text()}),
     ));
     rep.mark(cx, "random");
+    let k = known.clone();
+    rep.absorb(par_proptest(
+        cx,
+        "float-durations",
+        cx.tier.pick(5_000, 100_000),
+        || (1u32..5_000_000, 0u8..5, any::<bool>()).prop_map(|(k, form, neg)| FloatDuration { k, form, neg }),
+        move || mk_env(k.clone()),
+        |env, c, st| check_float_duration(env, c, st),
+        |c| json!({"float_duration": c, "text": c.text()}),
+    ));
+    rep.mark(cx, "float-durations");
     let dec = rep.stats.classes.get("must_decompose").cloned().unwrap_or(0);
     let refu = rep.stats.classes.get("must_refuse").cloned().unwrap_or(0);
     if rep.violations.is_empty() && (dec == 0 || refu == 0) {
@@ -441,6 +547,10 @@ pub fn run(cx: &Cx) -> Report {
 
 pub fn replay(cx: &Cx, _phase: &str, case: &J, st: &mut Stats) -> CaseResult {
     let env = mk_env(cx.known.clone());
+    if case.get("float_duration").is_some() {
+        let c: FloatDuration = serde_json::from_value(case["float_duration"].clone()).map_err(|e| format!("bad case: {}", e))?;
+        return check_float_duration(&env, &c, st);
+    }
     let c: Case = serde_json::from_value(case["case"].clone()).map_err(|e| format!("bad case: {}", e))?;
     check(&env, &c, st)
 }
